@@ -155,6 +155,15 @@ check('C13',
       'Each transition rebuilds a fresh real LightSet and replays the history (no state copying); canonical form argued in DESIGN.md C13.',
       'DESIGN.md C13')
 
+check('C07',
+      'exhaustive enumeration of finite numeric domains through every command path of the real VM and device wrappers vs exact rational reference',
+      'All 65 536 raw values of hue, saturation, brightness and kelvin (light and zone paths; thorough: every path), out-of-range/fractional raw values on every path, logical hue '
+      '-720..1080 step 0.25 and percentages -50..150 step 0.05 and kelvin grids on every path (light, group, location, all, and-list, zone, matrix cell, block, default+matrix), '
+      'duration sets incl. the 2^32 ms boundary on every colour and power path in all three unit modes, delays, rgb triples on a grid; and the get->set round trip in logical units '
+      'for all 65 536 values of each component: every transmitted integer is in range and the nearest integer to the exact rational formula.',
+      'Per path the script is compiled once and only the MOVEQ literal is substituted; rgb percentages outside 0..100 are checked for range only (they name no colour).',
+      'DESIGN.md C07')
+
 NOT_YET = 'check not built yet in this session (design in DESIGN.md); will be claimed when its command exists'
 
 
